@@ -826,6 +826,19 @@ func genBlocking(repo, out string) error {
 
 	// ---- worker audit_processor: Auditd.Read (+ helpers parseAuditLogs, maintainReassemblerLoop via its go statements)
 	blkScanFunc(ad, "audit_processor", "Auditd.Read", false, &rows, &helpers, samePkg(ad))
+	// the reassembler's callbacks run inside PushMessage (parser thread), Maintain (maintenance thread) and the
+	// deferred Close (Read itself): their blocking points belong to the audit processor too
+	cb, err := blkParse(filepath.Join(repo, "processors/auditd/reassembler_callback.go"))
+	if err != nil {
+		return err
+	}
+	for _, m := range []string{"reassemblerCB.ReassemblyComplete", "reassemblerCB.EventsLost"} {
+		before := len(rows)
+		blkScanFunc(cb, "audit_processor", m, false, &rows, &helpers, samePkg(cb))
+		for i := before; i < len(rows); i++ {
+			rows[i].thread = "reassembler callback"
+		}
+	}
 	for _, must := range []string{"parseAuditLogs", "maintainReassemblerLoop"} {
 		seen := false
 		for _, h := range helpers {
@@ -846,7 +859,7 @@ func genBlocking(repo, out string) error {
 
 	// ---- render
 	var sb strings.Builder
-	sb.WriteString("(* GENERATED by tools/go2v (blocking.go) from ingesters/{namedpipe,auditlog,syslog}, processors/{sshd,auditd/auditd.go},\n   cmd/namedpipe.go and main.go. Do not edit. *)\n")
+	sb.WriteString("(* GENERATED by tools/go2v (blocking.go) from ingesters/{namedpipe,auditlog,syslog}, processors/{sshd,auditd/auditd.go,auditd/reassembler_callback.go},\n   cmd/namedpipe.go and main.go. Do not edit. *)\n")
 	sb.WriteString("From Coq Require Import String List Bool.\nImport ListNotations.\nOpen Scope string_scope.\n\n")
 	sb.WriteString("Inductive kind := KSend | KRecv | KSelect | KRange | KRead | KOpen | KJoin.\n")
 	sb.WriteString("Inductive arm := ASend (ch : string) | ARecv (ch : string) | ADone | ADefault.\n")
